@@ -24,6 +24,7 @@ mod d_scope;
 mod d_sel;
 mod d_txt;
 mod d_vms;
+mod d_ws;
 
 pub struct Out {
   pub req: std::io::BufWriter<std::fs::File>,
@@ -138,6 +139,7 @@ fn main() {
     "limits" => d_limits::run(&args),
     "fixb" => d_fixb::run(&args),
     "vms" => d_vms::run(&args),
+    "ws" => d_ws::run(&args),
     "fixsmall" => d_fixsmall::run(&args),
     "txt" => d_txt::run(&args),
     "dlint" => d_dlint::run_all(&args),
